@@ -378,6 +378,14 @@ def parsModel (lines : List Line) (a : ParsIn) : Loc × Int :=
         let n := if ll' != lr then min ll' lr - 1 else ll' - 1
         (⟨(pairAt lpars n).1, (pairAt lpars n).2, (pairAt rpars n).1, (pairAt rpars n).2⟩, (n : Int))
 
+/-! ## `FST.bloc` -/
+
+/-- End column of `FST.bloc` for a block statement whose `loc` ends at `endCol` on `lastLine`:
+`if last_line.find('#', end_col) != -1: end_col = len(last_line)` (the trailing line comment of the last child belongs
+to the bounding location).  It is a function of the CURRENT text of the line. -/
+def blocEndCol (lastLine : Line) (endCol : Nat) : Nat :=
+  if (lastLine.drop endCol).contains '#' then lastLine.length else endCol
+
 /-! ## `find_contains_loc` / `find_in_loc` / `find_loc`
 
 `nodes` = `[self] ++ list(self.walk('loc', self_=False))` in walk (pre)order, `depth` = number of ancestors inside
